@@ -263,4 +263,24 @@ def r69v(F):
     return r
 
 
-RULES = [r61, r69, r62, r90, r63, r69v]
+def r63e(F):
+    r = RuleResult("R63e", "only NULL counts as absent",
+                   "Val::is_empty, the test write_node uses for `was this attribute / field given as NULL`, answers true for Val::Empty "
+                   "only: widened to empty strings, lists or tuples it silently drops `checked=\"\"`", floor=6, exhaustive=True)
+    fn = F.fn("ucglib::build::ir::Val::is_empty")
+    preds = {}
+    trues = {b for b, j, pl, rv, m in fn.assigns() if pl["l"] == 0 and not pl["p"] and rv["k"] == "use" and rv["ops"][0].get("int") == "1"}
+    # `matches!` / comparisons may also produce the bool through a call or a non-constant: treat any non-constant assignment as "may be true"
+    maybe = {b for b, j, pl, rv, m in fn.assigns() if pl["l"] == 0 and not pl["p"] and not (rv["k"] == "use" and "int" in rv["ops"][0])}
+    maybe |= {b for b, t in fn.calls() if t["dest"]["l"] == 0 and not t["dest"]["p"]}
+    for v in F.variants(VAL):
+        reach = variants.reach_variant(F, fn, 0, VAL, v, preds, scrutinee_ok=lambda pl, b: pl["l"] == 1)
+        can_true = bool(reach & (trues | maybe))
+        ok = can_true if v == "Empty" else not can_true
+        r.inst("is_empty:%s" % v, fn.where(), ok, ("true" if v == "Empty" else "false") if ok else
+               ("Val::is_empty is not true for NULL" if v == "Empty" else
+                "Val::is_empty can answer true for a %s: write_node then drops the attribute or field although only NULL may be omitted" % v))
+    return r
+
+
+RULES = [r61, r69, r62, r90, r63, r69v, r63e]
